@@ -448,7 +448,32 @@ class Real:
             spec = importlib.util.spec_from_file_location("hv_oracle_" + job["oracle"], path)
             mod = importlib.util.module_from_spec(spec)
             spec.loader.exec_module(mod)
-            return mod.run(self, job)
+            try:
+                return mod.run(self, job)
+            except Exception as ex:
+                # An oracle guards (try/except) every library call where the statement allows an exception.  An exception that
+                # escapes from an unguarded call and was raised inside the library under test (directly, or in a stdlib function it
+                # called) is therefore an observation about the library - "raises where the property says it works" - not a
+                # harness failure.  An exception raised by the oracle's own code stays a harness error (UNDECIDED).
+                libdir = os.path.dirname(os.path.abspath(self.h.__file__)) + os.sep
+                frames = traceback.extract_tb(ex.__traceback__)
+                site = [f for f in frames if os.path.abspath(f.filename).startswith(os.path.abspath(odir) + os.sep)]
+                owner = None
+                for f in reversed(frames):
+                    fn = os.path.abspath(f.filename)
+                    if fn.startswith(libdir):
+                        owner = ("lib", f)
+                        break
+                    if fn.startswith(os.path.abspath(odir) + os.sep) or fn == os.path.abspath(__file__):
+                        owner = ("oracle", f)
+                        break
+                if owner and owner[0] == "lib" and site:
+                    at, lf = site[-1], owner[1]
+                    return {"checked": 0, "nontrivial": 0, "escaped_exception": True, "failures": [{
+                        "input": f"oracle {job['oracle']} (seed {job.get('seed', 0)}, n {job.get('n')}): unguarded library call at {os.path.basename(at.filename)}:{at.lineno} `{(at.line or '').strip()[:160]}`",
+                        "observed": f"raised {type(ex).__name__}: {str(ex)[:200]} (at {os.path.relpath(lf.filename, os.path.dirname(libdir.rstrip(os.sep)))}:{lf.lineno} in {lf.name})",
+                        "expected": "no exception: the oracle wraps every call for which the statement allows one"}]}
+                raise
         raise ValueError(kind)
 
     def op(self, name, env, args):
